@@ -47,15 +47,28 @@ class MaterializeReshapeShape(RewriteRuleClassBase):
                 f"Output shape has {sym_count} symbolic dims, cannot materialize."
             )
 
+        # Use allowzero=1 when a materialized dim is 0: the dims are concrete values
+        # from shape inference, so a 0 dim means "actually zero" not "copy from input".
+        # The attribute exists from opset 14 and excludes a -1 dim.
+        reshape_node = context.nodes[0]
+        self._allowzero = reshape_node.attributes.get_int("allowzero", 0) == 1
+        if 0 in self._new_dims and not self._allowzero:
+            opset_version = context.model.opset_imports.get("", 0)
+            if opset_version < 14:
+                return check_result.fail("A zero dim needs allowzero, which needs opset 14.")
+            if -1 in self._new_dims:
+                return check_result.fail("A zero dim cannot be combined with an unknown dim.")
+            self._allowzero = True
+
         return check_result
 
     def rewrite(self, op, data: ir.Value, shape: ir.Value):
         new_shape = op.Constant(
             value=ir.tensor(self._new_dims, dtype=ir.DataType.INT64),
         )
-        # Use allowzero=1 because the materialized dims are concrete values
-        # from shape inference, so a 0 dim means "actually zero" not "copy from input"
-        return op.Reshape(data, new_shape, allowzero=1)
+        if self._allowzero:
+            return op.Reshape(data, new_shape, allowzero=1)
+        return op.Reshape(data, new_shape)
 
 
 materialize_reshape_shape_rule = MaterializeReshapeShape.rule()
